@@ -1994,6 +1994,16 @@ def written_out(ck, cls, m, me):
                 return n
             a = callee.node.args
             body = [st for st in callee.node.body if not (isinstance(st, ast.Expr) and isinstance(st.value, ast.Constant))]
+            if len(body) == 1 and isinstance(body[0], ast.For) and not body[0].orelse and len(body[0].body) == 1:
+                # a generator that filters one iterable: `for x in IT: [if C:] yield E`  ==  (E for x in IT [if C])
+                inner, conds = body[0].body[0], []
+                while isinstance(inner, ast.If) and not inner.orelse and len(inner.body) == 1:
+                    conds.append(inner.test)
+                    inner = inner.body[0]
+                if isinstance(inner, ast.Expr) and isinstance(inner.value, ast.Yield) and inner.value.value is not None \
+                        and not any(isinstance(x, (ast.Yield, ast.YieldFrom)) for c_ in conds for x in ast.walk(c_)):
+                    gen = ast.GeneratorExp(elt=inner.value.value, generators=[ast.comprehension(target=body[0].target, iter=body[0].iter, ifs=conds, is_async=0)])
+                    body = [ast.Return(value=gen)]
             if len(body) != 1 or not isinstance(body[0], ast.Return) or body[0].value is None or a.vararg or a.kwarg or a.kwonlyargs:
                 return n
             if callee.node.decorator_list and not callee.is_static and not callee.is_classmethod:
@@ -2097,6 +2107,9 @@ def _forget_function_covers_slots(ck, R, cls, slots, dec):
                     path_narrow = per_conj[0]
             index = sorted(f for f in sc.fields if f not in state and f not in slots)
             if slot not in sc.fields and not index:
+                unfollowed = [x for x in sc.other if isinstance(x, ast.Call) and _own_method(ck.repo, cls, x, me)[0] is not None]
+                ck.need(not unfollowed, "MemoryCache.forget_function: the keys removed from self.%s come out of `%s`, which is not followed"
+                        % (slot, A.short(unfollowed[0], 50) if unfollowed else ""))
                 src = ", ".join("self." + f for f in sorted(sc.fields)) or ("`%s`" % A.short(sc.other[0], 40) if sc.other and sc.other[0] is not None else "something else")
                 why_not = why_not or (site, "the keys it removes from self.%s (`%s`) are enumerated from %s, not from self.%s: an entry that only self.%s holds "
                                             "(a result too large for the cache, or one whose cache entry was pushed out, lives on in the weak references alone) "
